@@ -22,17 +22,6 @@ P
   if echo "$out" | grep -q "patch does not apply"; then echo "$id NOAPPLY"; continue; fi
   if echo "$out" | grep -q "BUILD FAILED"; then echo "$id BUILDFAIL"; continue; fi
   caught=$(echo "$out" | grep -a -E "^\[C[0-9]+\] rc=1" | sed -E 's/^\[(C[0-9]+)\].*/\1/' | tr '\n' ' ')
-  # C18-C20: not caught by the simulator -> the thread-interleaving engine, patch applied to /repo itself
-  case "$id" in C18-*|C19-*|C20-*)
-    if [ -z "$caught" ]; then
-      pid=$(echo "$id" | cut -c1-3)
-      if git -C /repo apply "/verif/$d/patch.diff" 2>/dev/null; then
-        mkdir -p /tmp/miri-eval; cp /verif/known_findings.txt /tmp/miri-eval/
-        VERIF_DIR=/tmp/miri-eval python3 /verif/miri/run.py check "$pid" quick >/tmp/miri-eval/out.txt 2>&1; [ $? -eq 1 ] && caught="$pid(threads-engine) "
-        git -C /repo checkout -- .
-      fi
-    fi ;;
-  esac
   err=$(echo "$out" | grep -a -E "^\[C[0-9]+\] rc=2" | sed -E 's/^\[(C[0-9]+)\].*/\1/' | tr '\n' ' ')
   if [ -n "$caught" ]; then echo "$id CAUGHT by $caught${err:+(harness error: $err)}"; else echo "$id MISSED (ran: $ids)${err:+ harness error: $err}"; fi
 done
